@@ -247,13 +247,22 @@ func DecodeStream(r Getter, path *CycleCheck, x *Stream) (io.ReadCloser, error) 
 		}
 	}
 
+	// A filter does not close the reader it decodes from, so the layers
+	// below the outermost one are kept and closed together with it.
+	var lower []io.Closer
 	for _, fi := range filters {
-		out, err = fi.Decode(v, out, budget)
+		next, err := fi.Decode(v, out, budget)
 		if err != nil {
+			out.Close()
+			for _, c := range lower {
+				c.Close()
+			}
 			return nil, src.promote(err)
 		}
+		lower = append([]io.Closer{out}, lower...)
+		out = next
 	}
-	return &sourceAwareReader{inner: out, src: src}, nil
+	return &sourceAwareReader{inner: out, src: src, lower: lower}, nil
 }
 
 // sourceErrChecker wraps the raw byte source underlying a decoded PDF
@@ -299,6 +308,9 @@ func (s *sourceErrChecker) promote(err error) error {
 type sourceAwareReader struct {
 	inner io.ReadCloser
 	src   *sourceErrChecker
+
+	// lower holds the readers below inner, outermost first.
+	lower []io.Closer
 }
 
 func (s *sourceAwareReader) Read(p []byte) (int, error) {
@@ -309,7 +321,15 @@ func (s *sourceAwareReader) Read(p []byte) (int, error) {
 	return n, err
 }
 
-func (s *sourceAwareReader) Close() error { return s.inner.Close() }
+// Close closes every layer of the filter chain, so that a helper goroutine
+// of a filter below the outermost one ends as well.
+func (s *sourceAwareReader) Close() error {
+	err := s.inner.Close()
+	for _, c := range s.lower {
+		c.Close()
+	}
+	return err
+}
 
 // GetFilters extracts the information contained in the /Filter and
 // /DecodeParms entries of a stream dictionary.
